@@ -64,6 +64,8 @@ WITNESSES = [
 
 
 def top_op(req):
+    if req.startswith("(f "):
+        return "fold"
     m = re.match(r"\((?:k|e) \d+ \(?([^ )]+)", req)
     return m.group(1) if m else "?"
 
@@ -82,8 +84,37 @@ def strip_raw(out):
     return " ".join(res) + ")"
 
 
+def classify_fold(req, impl_line, model_line):
+    """`(f e)`: constant folding vs run time (model and implementation), optimizer on vs off."""
+    ip = impl_line.split(" ;; ")
+    mp = model_line.split(" ;; ")
+    if len(ip) != 4 or len(mp) != 3:
+        return {"kind": "machinery", "detail": "malformed answer impl=%r model=%r" % (impl_line[:200], model_line[:200])}
+    fold, rt, so, sn = ip[0][5:], ip[1][3:], ip[2][7:], ip[3][9:]
+    tags = [t for t in mp[2].split(" ") if t]
+    problems = []
+    if fold.startswith("some ") and rt.startswith("ok ") and fold[5:] != rt[3:]:
+        problems.append("fold!=eval")
+    if fold.startswith("some ") and not rt.startswith("ok "):
+        problems.append("fold-ok-eval-fails")
+    if fold == "panic" and rt.startswith("ok "):
+        problems.append("fold-panics-eval-ok")
+    # optimizer on vs off: compared when eval_constant decides the expression (fold != none) or no
+    # typed NULL stays symbolic in it; rewrite rules over a symbolic NULL operand (mul-zero,
+    # sub-cancel, eq-eq, ...) are C01's subject, only the explicit witness below is replayed here
+    symbolic_null = fold == "none" and " null)" in req and not req.startswith("(f (* i32:0 (cast INT null))")
+    if so != "-" and not symbolic_null and not (so == sn or (not so.startswith("ok") and not sn.startswith("ok"))):
+        problems.append("optimizer-on!=off")
+        if fold == "none" and not tags:
+            tags = ["optimizer:rule-over-symbolic-null"]
+    return {"kind": "fold", "impl": impl_line, "model": model_line, "tags": tags, "problems": problems,
+            "model_eq_impl": ip[0] == mp[0] and ip[1] == mp[1]}
+
+
 def classify(req, impl_line, model_line):
     """Returns dict(kind=..., ...) for one request."""
+    if req.startswith("(f "):
+        return classify_fold(req, impl_line, model_line)
     ip = impl_line.split(" ;; ")
     mp = model_line.split(" ;; ")
     if len(mp) != 4 or len(ip) < 2:
@@ -98,7 +129,9 @@ def classify(req, impl_line, model_line):
         res["kind"] = "machinery"
         res["detail"] = impl_out
         return res
-    empty = impl_out == "ok (empty)" and model_out.startswith("ok")
+    # cardinality 0 end to end: no chunk comes back, whether the projection task ran, or died
+    # (a panic of the task closes its channel = end of stream): both look like "ok (empty)"
+    empty = impl_out == "ok (empty)" and (model_out.startswith("ok") or model_out == "panic")
     res["model_eq_impl"] = empty or impl_out == model_out
     res["impl_vals_eq_spec"] = empty and spec_out.startswith("ok") or strip_raw(impl_out) == spec_out
     res["model_vals_eq_spec"] = strip_raw(model_out) == spec_out
@@ -132,6 +165,28 @@ def decide(ck, results, stats):
         stats["ops"][op] += 1
         if r["kind"] == "machinery":
             ck.report("machinery:answer", r["detail"], replay={"request": q}, found_input=False)
+            continue
+        if r["kind"] == "fold":
+            stats["fold"]["requests"] += 1
+            stats["model_vs_impl"]["compared"] += 1
+            if not r["model_eq_impl"]:
+                stats["model_vs_impl"]["disagree"] += 1
+                ck.report("corr%s:fold" % ("+prop" if r["problems"] else ""),
+                          "fold/eval model and implementation disagree on %s: impl=%s model=%s" % (q[:200], r["impl"][:200], r["model"][:200]),
+                          replay={"request": q, **r}, found_input=bool(r["problems"]))
+                continue
+            stats["impl_vs_oracle"]["compared"] += 1
+            for pr in r["problems"]:
+                stats["fold"][pr] += 1
+            if r["problems"]:
+                stats["impl_vs_oracle"]["disagree"] += 1
+                if not r["tags"]:
+                    ck.report("prop:fold:untagged", "folding and evaluation differ (%s) with no modelled reason on %s: %s" % (r["problems"], q[:200], r["impl"][:200]),
+                              replay={"request": q, **r}, found_input=True)
+                for t in r["tags"]:
+                    stats["tags"][t] += 1
+                    ck.report(t, "%s (%s): %s on %s" % (t, ",".join(r["problems"]), r["impl"][:160], q[:160]),
+                              replay={"request": q, **r}, found_input=True)
             continue
         stats["outcomes"][r["impl"].split(" ")[0]] += 1
         for t in r["tags"]:
@@ -192,7 +247,8 @@ def new_stats():
     return {"ops": collections.Counter(), "outcomes": collections.Counter(), "tags": collections.Counter(),
             "reproduced": collections.Counter(), "reproduced_multi": collections.Counter(),
             "model_vs_impl": {"compared": 0, "disagree": 0}, "impl_vs_oracle": {"compared": 0, "disagree": 0},
-            "model_vs_oracle": {"compared": 0, "disagree": 0}, "e2e_direct_differ": 0}
+            "model_vs_oracle": {"compared": 0, "disagree": 0}, "e2e_direct_differ": 0,
+            "fold": collections.Counter()}
 
 
 def run(ck):
@@ -239,6 +295,10 @@ def run(ck):
     nontrivial = set()
     for q in reqs:
         m = re.match(r"\((k|e) (\d+) ", q)
+        if not m:
+            lens["constant-expression"] += 1
+            nontrivial.add(q)
+            continue
         ln = int(m.group(2))
         lens["0" if ln == 0 else "1" if ln == 1 else "2-8" if ln <= 8 else "9-62" if ln <= 62 else "63-65" if ln <= 65 else "66-126" if ln <= 126 else "127-129" if ln <= 129 else "130-200"] += 1
         if ln >= 1 and re.search(r" n[^u ]*[ )]", q):
@@ -255,7 +315,8 @@ def run(ck):
                          "reproduced_single_tag": dict(stats["reproduced"]),
                          "kinds": {"k(direct kernels)": sum(1 for q in reqs if q.startswith("(k")),
                                    "e(table scan + proj, unoptimised plan)": sum(1 for q in reqs if q.startswith("(e"))},
-                         "e2e_vs_direct_differ(string raw dropped by scan)": stats["e2e_direct_differ"]},
+                         "e2e_vs_direct_differ(string raw dropped by scan)": stats["e2e_direct_differ"],
+                         "constant_folding": dict(stats["fold"])},
         "witnesses": witness_status,
     })
     return ck.finish(level="proof", trusted_base=[
